@@ -108,6 +108,16 @@ func NewWordList(list []string) (*WordList, error) {
 		}
 	}
 
+	// The count above depends on the order in which the map was visited: a
+	// capitalized twin ("Polish") seen before its lower-case form is counted
+	// as uncapitalizable and then removed. Count only the words that remain.
+	unCapable = 0
+	for w := range unique {
+		if strings.Title(w) == w {
+			unCapable++
+		}
+	}
+
 	// third pass, because life sucks
 	var ourWords []string
 	for w := range unique {
